@@ -509,7 +509,9 @@ func (vc *VC) alloc(h *Heap, guard string, dyn int) string {
 		vc.assume(eq(sel(ml, o), "0"))
 	}
 	if dyn != 0 {
-		vc.assume(eq("(dyntype "+o+")", num(int64(dyn))))
+		// guarded: dyntype is not versioned, and allocations on different branches may reuse
+		// the same object number
+		vc.assume(implies(guard, eq("(dyntype "+o+")", num(int64(dyn)))))
 	}
 	return o
 }
@@ -693,8 +695,28 @@ func (vc *VC) mapHeapSort(k string) string {
 	case "MV":
 		vs := map[string]string{"I": "Int", "B": "Bool", "S": "Str", "F": "F64", "P": "Ptr", "L": "Slice", "A": "Iface", "R": "Int"}[p[2]]
 		return "(Array Int (Array Int (Array " + mapKeySort(k) + " " + vs + ")))"
+	case "G":
+		if g, ok := vc.CS.Ghosts[strings.TrimPrefix(k, "G_")]; ok {
+			return g.SMTSort()
+		}
 	}
 	return "Int"
+}
+
+// ghost state declared in contract files: `ghost $name (KeySort) ValSort` or `ghost $name ValSort`
+func (g *GhostDecl) SMTSort() string {
+	if g.Key == "" {
+		return g.Val
+	}
+	return "(Array " + g.Key + " " + g.Val + ")"
+}
+
+func (vc *VC) ghostHeap(h *Heap, name string) (string, *GhostDecl, bool) {
+	g, ok := vc.CS.Ghosts[name]
+	if !ok {
+		return "", nil, false
+	}
+	return vc.mapHeap(h, "G_"+name, g.SMTSort()), g, true
 }
 
 // havocAll replaces every heap component by a fresh one (objects above the old allocation
